@@ -30,8 +30,11 @@ class DftFlow:
         # the path on which the windows intersect and a transform happens
         self.path = None
         want_mask = config.get('mask') is not None and config.get('mask') != NONE
+        from ..rules import none_state
         for p in self.paths:
-            if p.calls('fourier.dft2') and bool(p.calls('propagate._mask_shape')) == want_mask:
+            # with a mask the path established `mask is not None` (and used to call _mask_shape)
+            masked = bool(p.calls('propagate._mask_shape')) or none_state(p, 'mask') is False
+            if p.calls('fourier.dft2') and masked == want_mask:
                 self.path = p
         if self.path is None:
             raise AnalysisError(f'propagate_dft never calls dft2 under {label}')
